@@ -18,11 +18,16 @@ from infretis.classes.engines.enginebase import EngineBase
 class LatticeEngine(EngineBase):
     """Random walk on Z driven through EngineBase.propagate."""
 
-    def __init__(self, wall=-3, timestep=1.0, subcycles=1, aux=False, big_cv=0.0):
+    # (entropy, spawn key) of the generator every propagation drew from; read and cleared by the
+    # simulator's C07 monitor around each job (observation only)
+    used_streams = []
+
+    def __init__(self, wall=-3, timestep=1.0, subcycles=1, aux=False, big_cv=0.0, energies=False):
         super().__init__("Lattice walk engine", timestep, subcycles)
         self.wall = int(wall)
         self.aux = bool(aux)            # also write <name>.aux next to every trajectory file
         self.big_cv = float(big_cv)     # non-zero: a second order column (collective variable) big_cv + x
+        self.energies = bool(energies)  # frames carry energies (some exactly 0.0)
         self.ext = "lat"
         self.name = "lattice"
         self._beta = 1.0
@@ -63,6 +68,9 @@ class LatticeEngine(EngineBase):
     def _propagate_from(self, name, path, system, ens_set, msg_file,
                         reverse=False):
         left, _, right = ens_set["interfaces"]
+        seq = getattr(self.rgen.bit_generator, "_seed_seq", None)
+        if seq is not None:
+            type(self).used_streams.append((seq.entropy, tuple(int(v) for v in seq.spawn_key)))
         x = self._read_lines(system.config[0])[0]
         traj_file = os.path.join(self.exe_dir, f"{name}.{self.ext}")
         success, status = False, "lattice"
@@ -81,6 +89,9 @@ class LatticeEngine(EngineBase):
                     order = list(order) + [self.big_cv + x]
                 snapshot = {"order": order, "config": (traj_file, step_nr),
                             "vel_rev": reverse}
+                if self.energies:
+                    snapshot["vpot"] = float(x % 3) - 1.0          # -1, 0, 1
+                    snapshot["ekin"] = 0.5 * float(x % 2)           # 0, 0.5
                 phase_point = self.snapshot_to_system(system, snapshot)
                 status, success, stop, _ = self.add_to_path(
                     path, phase_point, left, right)
